@@ -1,4 +1,5 @@
 import GwbVerif.Properties.C13
+import GwbVerif.Properties.C13Slab
 open Gwb
 #print axioms C13_upperBound_le
 #print axioms C13_upperBound_bracket
@@ -17,6 +18,10 @@ open Gwb
 #print axioms C13_plume_tip_divisor_pos
 #print axioms C13_segment_divisors
 #print axioms C13_initialEstimate_divisor
+#print axioms C13_slab_seconds_in_year
+#print axioms C13_mass_conserving_divisors
+#print axioms C13_mass_conserving_spline_divisor
+#print axioms C13_slab_plate_model_divisors
 #check @C13_upperBound_le
 #check @C13_upperBound_bracket
 #check @C13_plume_no_internal
@@ -34,3 +39,7 @@ open Gwb
 #check @C13_plume_tip_divisor_pos
 #check @C13_segment_divisors
 #check @C13_initialEstimate_divisor
+#check @C13_slab_seconds_in_year
+#check @C13_mass_conserving_divisors
+#check @C13_mass_conserving_spline_divisor
+#check @C13_slab_plate_model_divisors
